@@ -12,7 +12,7 @@ import json
 import os
 import random
 
-from common import Report, Violation, parallel_map, h, run_sentinels, load_known, VERIF, panic_site
+from common import Report, Violation, parallel_map, h, run_sentinels, load_known, VERIF, panic_site, attribute_rules
 from gen import gen_schema, setup_statements, QueryGen
 from sqlcase import RL, DISK_LAYOUTS, ms, ordered_equal, norm_rows
 
@@ -90,6 +90,7 @@ def judge_query(rl, sql, order):
         sig = "rule:" + "+".join(core) if core else "optimizer:unattributed"
         if len(core) > 3:
             sig = "optimizer:many-rules"
+        sig = attribute_rules(core, "C01", "rule:") or sig
         return dict(signature=sig, what=f"{sql[:220]}: optimized {opt['rows'][:4]} ({len(opt['rows'])} rows) vs unoptimized {ref['rows'][:4]} ({len(ref['rows'])} rows); restored by denying {culprits}", sql=sql), 1, 0, opt
     return None, 1, 0, opt
 
